@@ -152,7 +152,13 @@ class Intervals:
         return r if r is not None else Iv(-INF, INF)
 
     def len_operand(self, st, op):
-        """interval of the length of a slice-like operand"""
+        """interval of the length of a slice-like operand (never above isize::MAX, whatever widening did to it)"""
+        r = self._len_operand(st, op)
+        if r.hi > LEN_MAX or r.lo < 0:
+            return Iv(max(r.lo, 0), min(r.hi, LEN_MAX))
+        return r
+
+    def _len_operand(self, st, op):
         if op is None:
             return Iv(0, LEN_MAX)
         if op["k"] == "const":
